@@ -6,6 +6,8 @@ import sys
 
 VERIF = os.path.dirname(os.path.dirname(os.path.abspath(__file__)))
 ALL = ["C%02d" % i for i in range(1, 21)]
+# harnesses that passed unchanged-tree sweeps and sensitivity testing; everything else is listed under not_applicable
+READY = ["C04", "C05", "C06", "C16"]
 
 
 def load(pid):
@@ -22,7 +24,7 @@ def main():
     checks, na = [], []
     for pid in ALL:
         m = load(pid)
-        if m is None or not getattr(m, "CLAIMED", True):
+        if m is None or pid not in READY:
             na.append(dict(property_id=pid, reason=getattr(m, "NA_REASON", "harness not built yet in this tree; no check is claimed")))
             continue
         mf = getattr(m, "MANIFEST", {})
